@@ -189,6 +189,16 @@ class Prop:
 
     # ----- one case: build, observe implementation, oracle
     def run(self, desc) -> Case:
+        if "hist" not in desc:
+            return self._run(desc)
+        try:
+            return self._run(desc)
+        except Exception as e:  # noqa: BLE001 - the node graph reached through the history cannot even be observed
+            return Case(desc=desc, coq_input="([], [])", impl_obs=[-424242], nontrivial=True,
+                        oracle_fail=f"the tree reached through the history cannot be observed: {type(e).__name__}: {e}",
+                        key=H.digest([desc["nodes"], desc.get("hist"), "unobservable"]), stats=dict(nodes=0))
+
+    def _run(self, desc) -> Case:
         hist_fail = None
         if "hist" in desc:
             early = []
